@@ -87,8 +87,9 @@ def consts_here():
 class StageRecorder:
     """records stage outputs of one genotype() call.  force_empty in (None, "cn", "major", "minor")."""
 
-    def __init__(self, force_empty=None):
+    def __init__(self, force_empty=None, inject=None):
         self.force_empty = force_empty
+        self.inject = inject      # [(copy delta, score offset)]: competing structures appended to what estimate_cn returns
         self.keep = []            # keeps every recorded object alive so that id() stays unique
         self.cn = None            # list of CNSolution as returned
         self.cn_scores = None
@@ -113,6 +114,29 @@ class StageRecorder:
             r = o_cn(*a, **k)
             if rec.force_empty == "cn":
                 r = []
+            if rec.inject and r:
+                # competing gene structures: the best real structure with one default copy more / less, scored a little worse.
+                # The later stages run for real on them, so candidates of several structures with different scores reach the selection
+                from aldy.solutions import CNSolution
+                from aldy.gene import CNConfigType
+                gene_ = a[0] if a else k.get("gene")
+                best = min(r, key=lambda x: x.score)
+                default = [n for n, c in gene_.cn_configs.items() if c.kind == CNConfigType.DEFAULT][0]
+                base = [n for n, v in best.solution.items() for _ in range(v)]
+                have = {tuple(sorted(x.solution.items())) for x in r}
+                r = list(r)
+                for delta, off in rec.inject:
+                    lst = list(base)
+                    if delta > 0:
+                        lst += [default] * delta
+                    elif default in lst and len(lst) > 2:
+                        lst.remove(default)
+                    else:
+                        continue
+                    c = CNSolution(gene_, best.score + off, lst)
+                    if tuple(sorted(c.solution.items())) not in have:
+                        have.add(tuple(sorted(c.solution.items())))
+                        r.append(c)
             rec.cn = list(r)
             rec.cn_scores = [float(x.score) for x in r]
             rec.keep += list(r)
